@@ -806,6 +806,16 @@ package analysis
 //@   loop 1: invariant forall kk string :: old(kk in dom(s.patterns.headers)) ==> kk in dom(s.patterns.headers)
 //@   loop 1: invariant forall kk string :: old(kk in dom(s.patterns.allPatterns)) ==> kk in dom(s.patterns.allPatterns)
 
+// path-level parameters (analyzeOperations) and shared parameters / shared response headers (initialize)
+//@ func (s *Spec) analyzeOperations(path, pi)
+//@   aspect patterns
+//@   requires s != nil && pi != nil && idxMaps(s)
+//@   modifies heaps INDEX, heap spec.Parameter
+//@   ensures idxMaps(s) && s.spec == old(s.spec) && s.patterns.parameters == old(s.patterns.parameters) && s.patterns.headers == old(s.patterns.headers) && s.patterns.schemas == old(s.patterns.schemas) && s.patterns.allPatterns == old(s.patterns.allPatterns)
+//@   ensures forall i in 0..len(pi.Parameters) :: pi.Parameters[i].Pattern != "" ==> pkey(path.Join("/paths", jsonpointer.Escape(path)), i) in dom(s.patterns.parameters) && pkey(path.Join("/paths", jsonpointer.Escape(path)), i) in dom(s.patterns.allPatterns)
+//@   loop 1: invariant s != nil && idxMaps(s) && s.spec == old(s.spec) && s.patterns.parameters == old(s.patterns.parameters) && s.patterns.headers == old(s.patterns.headers) && s.patterns.schemas == old(s.patterns.schemas) && s.patterns.allPatterns == old(s.patterns.allPatterns)
+//@   loop 1: invariant forall j in 0..idx :: op.Parameters[j].Pattern != "" ==> pkey(path.Join("/paths", jsonpointer.Escape(path)), j) in dom(s.patterns.parameters) && pkey(path.Join("/paths", jsonpointer.Escape(path)), j) in dom(s.patterns.allPatterns)
+
 
 // the items chain under an owner: every (key, Enum) pair it declares
 //@ fun itEnum(k string, p []any, items *spec.Items, prefix string, name string) bool = items != nil && ((k == "#" + path.Join(prefix, name) && p == items.Enum && len(p) > 0) || itEnum(k, p, items.Items, path.Join(prefix, name), name))
@@ -886,3 +896,13 @@ package analysis
 //@   loop 1: invariant forall kk in dom(s.enums.headers) :: (old(kk in dom(s.enums.headers)) && s.enums.headers[kk] == old(s.enums.headers[kk])) || hdrEnum(kk, s.enums.headers[kk], res, path.Join(prefix, "responses", strconv.Itoa(k)))
 //@   loop 1: invariant forall kk string :: old(kk in dom(s.enums.headers)) ==> kk in dom(s.enums.headers)
 //@   loop 1: invariant forall kk string :: old(kk in dom(s.enums.allEnums)) ==> kk in dom(s.enums.allEnums)
+
+// path-level parameters (analyzeOperations) and shared parameters / shared response headers (initialize)
+//@ func (s *Spec) analyzeOperations(path, pi)
+//@   aspect enums
+//@   requires s != nil && pi != nil && idxMaps(s)
+//@   modifies heaps INDEX, heap spec.Parameter
+//@   ensures idxMaps(s) && s.spec == old(s.spec) && s.enums.parameters == old(s.enums.parameters) && s.enums.headers == old(s.enums.headers) && s.enums.schemas == old(s.enums.schemas) && s.enums.allEnums == old(s.enums.allEnums)
+//@   ensures forall i in 0..len(pi.Parameters) :: len(pi.Parameters[i].Enum) > 0 ==> pkey(path.Join("/paths", jsonpointer.Escape(path)), i) in dom(s.enums.parameters) && pkey(path.Join("/paths", jsonpointer.Escape(path)), i) in dom(s.enums.allEnums)
+//@   loop 1: invariant s != nil && idxMaps(s) && s.spec == old(s.spec) && s.enums.parameters == old(s.enums.parameters) && s.enums.headers == old(s.enums.headers) && s.enums.schemas == old(s.enums.schemas) && s.enums.allEnums == old(s.enums.allEnums)
+//@   loop 1: invariant forall j in 0..idx :: len(op.Parameters[j].Enum) > 0 ==> pkey(path.Join("/paths", jsonpointer.Escape(path)), j) in dom(s.enums.parameters) && pkey(path.Join("/paths", jsonpointer.Escape(path)), j) in dom(s.enums.allEnums)
